@@ -215,7 +215,8 @@ theorem fkm_insert_nonreversal (pre post : List Int) (x y v : Int)
 /-! ### D: the numpy formulation of `find_turns` -/
 
 /-- **The scan equals the numpy formulation.**  `findTurnsNumpy` is the literal transcription of
-`find_turns` (differences, peak turns by the sign of the product of neighbouring differences, plateau
+`find_turns` (differences, peak turns by the product of the SIGNS of neighbouring differences - the code as repaired by c6242ee;
+`findTurnsNumpyProd`, the product of the differences themselves, is the formulation before the repair and equal over the integers -, plateau
 turns by matching the start and end edges of the zero-difference pattern with the `cut_ends` /
 `cut_starts` rules); it reports exactly the points of the scan `findTurns`, on every signal. -/
 theorem findTurns_eq_numpy (s : List Int) : findTurns s = findTurnsNumpy s := by
